@@ -38,31 +38,51 @@ func (core *JApiCore) compileCore() *jerr.JApiError {
 }
 
 func (core *JApiCore) checkMacroForRecursion() *jerr.JApiError {
-	for macroName, macro := range core.macro {
-		if je := findPaste(macroName, macro); je != nil {
+	checked := make(map[string]struct{}, len(core.macro))
+	for _, macroName := range core.macroNames {
+		path := map[string]struct{}{macroName: {}}
+		if je := core.findPaste(core.macro[macroName], path, checked); je != nil {
 			return je
 		}
+		checked[macroName] = struct{}{}
 	}
 	return nil
 }
 
-func findPaste(macroName string, d *directive.Directive) *jerr.JApiError {
-	if d.Type() == directive.Paste {
-		switch d.NamedParameter("Name") {
-		case "":
-			return d.KeywordError(fmt.Sprintf("%s (%s)", jerr.RequiredParameterNotSpecified, "Name"))
-
-		case macroName:
-			return d.KeywordError("recursion is prohibited")
-		}
-	} else if d.Children != nil {
+// findPaste looks for a PASTE directive which leads, directly or through other
+// macros, back to one of the macros being expanded (path). Macros from checked
+// are known to be free of recursion.
+func (core *JApiCore) findPaste(d *directive.Directive, path, checked map[string]struct{}) *jerr.JApiError {
+	if d.Type() != directive.Paste {
 		for _, c := range d.Children {
-			if je := findPaste(macroName, c); je != nil {
+			if je := core.findPaste(c, path, checked); je != nil {
 				return je
 			}
 		}
+		return nil
 	}
-	return nil
+
+	name := d.NamedParameter("Name")
+	if name == "" {
+		return d.KeywordError(fmt.Sprintf("%s (%s)", jerr.RequiredParameterNotSpecified, "Name"))
+	}
+
+	if _, ok := path[name]; ok {
+		return d.KeywordError("recursion is prohibited")
+	}
+
+	if _, ok := checked[name]; ok {
+		return nil
+	}
+
+	macro, ok := core.macro[name]
+	if !ok {
+		return nil // an unknown macro is reported when the PASTE is processed
+	}
+
+	path[name] = struct{}{}
+	defer delete(path, name)
+	return core.findPaste(macro, path, checked)
 }
 
 func (core *JApiCore) collectUserTypes() {
